@@ -63,7 +63,13 @@ def runOp (cfg : Config) (H : HashFn) (op : String) (a : List (String × String)
     pure s!"ok {Bytes.toHex (H.h m)}"
   | "keygen" => do
     let ps ← parseParams H.n (← arg a "params")
-    let seed ← argBytes a "seed"
+    -- seed=<n bytes>, or seedfull=<32 bytes> of which only the first n are the seed
+    let seed ← match arg a "seedfull" with
+      | some _ => do
+        let full ← argBytes a "seedfull"
+        if full.length != 32 then none
+        pure (full.take H.n)
+      | none => argBytes a "seed"
     if seed.length != H.n then none
     let aux ← argOptBytes a "aux"
     pure <| showP (hssKeygen H cfg ps seed aux) fun o =>
